@@ -57,3 +57,7 @@ instance : OfNat Poly 1 := ⟨const 1⟩
 
 end Poly
 end Gcmpy
+
+namespace Gcmpy.Poly
+instance : IntCast Poly := ⟨fun z => const (z : Rat)⟩
+end Gcmpy.Poly
